@@ -690,3 +690,38 @@ func (f *vBigSnapFile) Seek(offset int64, whence int) (int64, error) {
 func (f *vBigSnapFile) Close() error               { f.closed = true; return nil }
 func (f *vBigSnapFile) Discard() error             { return nil }
 func (f *vBigSnapFile) Metadata() SnapshotMetadata { return f.meta }
+
+// vCheckInv asserts the node invariant on a post-state (DESIGN.md §2.2, the conjuncts that every segment
+// must re-establish): log indices contiguous, terms non-decreasing, lastApplied <= commitIndex (<= lastIndex
+// when the step did not have to drop committed entries), the log starts at the snapshot boundary, the durable
+// (term, vote) pair equals memory, a leader's matchIndex never points beyond its log.
+func vCheckInv(n *vNode, commitWithinLog bool, startsAtBoundary bool, termsOrdered ...bool) {
+	r := n.r
+	es := n.log.entries
+	vAssert(len(es) >= 1, "INV.log-has-placeholder")
+	if len(es) == 0 {
+		return
+	}
+	for i := 1; i < len(es); i++ {
+		vAssert(es[i].Index == es[i-1].Index+1, "INV.log-indices-contiguous")
+		if len(termsOrdered) == 0 || termsOrdered[0] {
+			vAssert(es[i].Term >= es[i-1].Term, "INV.log-terms-non-decreasing")
+		}
+	}
+	vAssert(r.lastApplied <= r.commitIndex, "INV.applied<=commit")
+	if commitWithinLog {
+		vAssert(r.commitIndex <= es[len(es)-1].Index, "INV.commit<=last")
+	}
+	if startsAtBoundary {
+		vAssert(vAnd(es[0].Index == r.lastIncludedIndex, es[0].Term == r.lastIncludedTerm), "INV.log-starts-at-snapshot-boundary")
+	}
+	vAssert(vAnd(n.st.term == r.currentTerm, n.st.vote == r.votedFor), "INV.durable-term-and-vote-equal-memory")
+	if r.state == Leader {
+		last := es[len(es)-1].Index
+		for id := range r.configuration.Members {
+			if f, ok := r.followers[id]; ok {
+				vAssert(f.matchIndex <= last, "INV.matchIndex<=last")
+			}
+		}
+	}
+}
